@@ -4,6 +4,9 @@
 #include "stream.h"
 #include <fcntl.h>
 #include <stdio.h>
+#ifdef OVNI_VERIF
+#include <stdlib.h>
+#endif
 #include <string.h>
 #include <sys/mman.h>
 #include <sys/stat.h>
@@ -57,6 +60,31 @@ load_stream_fd(struct stream *stream, int fd)
 		err("stream %s is empty", stream->path);
 		return -1;
 	}
+
+#ifdef OVNI_VERIF
+	/* Verification hook: with OVNI_VERIF_HEAPBUF set, load the stream into
+	 * an exact-size heap buffer so that AddressSanitizer sees any access
+	 * outside the loaded stream. */
+	if (getenv("OVNI_VERIF_HEAPBUF") != NULL) {
+		stream->buf = malloc((size_t) st.st_size);
+		if (stream->buf == NULL) {
+			err("malloc failed:");
+			return -1;
+		}
+		size_t verif_off = 0;
+		while (verif_off < (size_t) st.st_size) {
+			ssize_t verif_n = pread(fd, stream->buf + verif_off,
+					(size_t) st.st_size - verif_off, (off_t) verif_off);
+			if (verif_n <= 0) {
+				err("pread failed:");
+				return -1;
+			}
+			verif_off += (size_t) verif_n;
+		}
+		stream->size = st.st_size;
+		return 0;
+	}
+#endif
 
 	int prot = PROT_READ | PROT_WRITE;
 	stream->buf = mmap(NULL, (size_t) st.st_size, prot, MAP_PRIVATE, fd, 0);
